@@ -1,4 +1,5 @@
 import BctVerif.Lemmas.Comp
+import BctVerif.Props.C03
 import Mathlib.Data.List.Chain
 import Mathlib.Order.Interval.Finset.Nat
 
@@ -138,6 +139,95 @@ theorem components_vs_distance (A : AMat Int n) (hsym : isSymm A = true) (x y : 
   · rintro ⟨p, hc, hl⟩
     exact List.relationReflTransGen_of_exists_isChain_cons p hc hl
 
+/-! ## agreement with the modelled `distance_bin`, `reachdist`, `breadthdist` (C03)
+
+The models of the three distance routines (`Model/Dist.lean`) take rational matrices; `ratMat A` is the
+integer matrix `A` read as rationals (same network: a cell is zero iff its cast is).  C03 proves that each
+model returns the hop-distance matrix (`distBin_isDist`, `reachdist_correct`, `breadthdist_correct`); composed
+with `components_correct` this gives: same component label ⇔ the modelled distance entry is finite ⇔ the
+modelled reachability flag is set. -/
+
+def ratMat (A : AMat Int n) : AMat Rat n := AMat.ofFn fun i j => ((A.get i j : Int) : Rat)
+
+theorem ratMat_get (A : AMat Int n) (i j : Fin n) : (ratMat A).get i j = (A.get i j : ℚ) := by
+  simp [ratMat]
+
+theorem hopLen_lt_top (A : AMat Int n) (i j : Fin n) : Dist.hopLen (ratMat A) i j < ⊤ ↔ Adj A i j := by
+  unfold Dist.hopLen Adj
+  rw [ratMat_get]
+  by_cases h : A.get i j = 0
+  · simp [h]
+  · have : ((A.get i j : ℤ) : ℚ) ≠ 0 := by exact_mod_cast h
+    simp [h, this]
+
+/-- a walk of finite hop length exists iff a path joins the nodes -/
+theorem walk_iff_reach (A : AMat Int n) (x y : Fin n) :
+    (∃ p, Dist.walkEnd x p = y ∧ Dist.walkLen (Dist.hopLen (ratMat A)) x p < ⊤) ↔ ReflTransGen (Adj A) x y := by
+  constructor
+  · rintro ⟨p, hp, hl⟩
+    induction p generalizing x with
+    | nil => simp only [Dist.walkEnd] at hp; subst hp; exact ReflTransGen.refl
+    | cons j p ih =>
+      simp only [Dist.walkEnd] at hp
+      simp only [Dist.walkLen] at hl
+      rw [WithTop.add_lt_top] at hl
+      exact ReflTransGen.head ((hopLen_lt_top A x j).mp hl.1) (ih j hp hl.2)
+  · intro h
+    induction h using ReflTransGen.head_induction_on with
+    | refl => exact ⟨[], rfl, by simp [Dist.walkLen]⟩
+    | @head a b hab _ ih =>
+      obtain ⟨p, hp, hl⟩ := ih
+      refine ⟨b :: p, by simpa [Dist.walkEnd] using hp, ?_⟩
+      simp only [Dist.walkLen]
+      rw [WithTop.add_lt_top]
+      exact ⟨(hopLen_lt_top A a b).mpr hab, hl⟩
+
+/-- under a hop-distance matrix, "finite entry" is "same label" -/
+theorem label_iff_finite (A : AMat Int n) (hsym : isSymm A = true) {D : Dist.LMat n}
+    (hD : Dist.IsDist (Dist.hopLen (ratMat A)) D) (x y : Fin n) :
+    labelFn A x = labelFn A y ↔ D x y < ⊤ := by
+  rw [components_correct A hsym, ← walk_iff_reach, lt_top_iff_ne_top, Ne, C03.isDist_top_iff hD x y, not_not]
+
+/-- **agreement with `distance_bin`**: the model of `distance_bin` returns a matrix (always), and two nodes
+carry the same component label iff its entry for the pair is finite — every ordered pair, the diagonal
+included (0 there). -/
+theorem components_vs_distance_bin (A : AMat Int n) (hsym : isSymm A = true) :
+    ∃ D, Dist.distBin (ratMat A) = some D ∧
+      ∀ x y, labelFn A x = labelFn A y ↔ D.get x y ≠ Dist.Ext.inf := by
+  obtain ⟨D, hD⟩ := C03.distBin_total (ratMat A)
+  refine ⟨D, hD, fun x y => ?_⟩
+  rw [label_iff_finite A hsym (C03.distBin_isDist (ratMat A) D hD) x y, lt_top_iff_ne_top, Ne, Ne,
+    Dist.Ext.eq_inf_iff]
+  rfl
+
+/-- **agreement with `reachdist`**: for distinct nodes, same label ⇔ the reachability flag `R[x,y]` of the
+model of `reachdist` is set ⇔ its distance entry `D[x,y]` is finite. -/
+theorem components_vs_reachdist (A : AMat Int n) (hsym : isSymm A = true) (x y : Fin n) (hxy : x ≠ y) :
+    (labelFn A x = labelFn A y ↔ (Dist.reachdist (ratMat A)).1.get x y = true) ∧
+      (labelFn A x = labelFn A y ↔ (Dist.reachdist (ratMat A)).2.get x y ≠ Dist.Ext.inf) := by
+  obtain ⟨hD, hR⟩ := C03.reachdist_correct (ratMat A)
+  have h := label_iff_finite A hsym hD x y
+  simp only [Dist.zeroDiag', if_neg hxy] at h
+  refine ⟨by rw [h, hR x y hxy], ?_⟩
+  rw [h, lt_top_iff_ne_top, Ne, Ne, Dist.Ext.eq_inf_iff]
+  rfl
+
+/-- **agreement with `breadthdist`** (empty diagonal, the routine's documented domain): the model of
+`breadthdist` returns, and for distinct nodes same label ⇔ `R[x,y]` is set ⇔ `D[x,y]` is finite. -/
+theorem components_vs_breadthdist (A : AMat Int n) (hsym : isSymm A = true) (hdiag : ∀ i, A.get i i = 0) :
+    ∃ R D, Dist.breadthdist (ratMat A) = some (R, D) ∧ ∀ x y, x ≠ y →
+      (labelFn A x = labelFn A y ↔ R.get x y = true) ∧
+        (labelFn A x = labelFn A y ↔ D.get x y ≠ Dist.Ext.inf) := by
+  have hd : ∀ i, (ratMat A).get i i = 0 := by intro i; rw [ratMat_get, hdiag]; rfl
+  obtain ⟨R, D, hRD⟩ := C03.breadthdist_total (ratMat A) hd
+  obtain ⟨hD, hR⟩ := C03.breadthdist_correct (ratMat A) hd R D hRD
+  refine ⟨R, D, hRD, fun x y hxy => ?_⟩
+  have h := label_iff_finite A hsym hD x y
+  simp only [Dist.zeroDiag', if_neg hxy] at h
+  refine ⟨by rw [h, hR x y], ?_⟩
+  rw [h, lt_top_iff_ne_top, Ne, Ne, Dist.Ext.eq_inf_iff]
+  rfl
+
 /-! ## non-vacuity -/
 
 /-- two crossing edges 0–3 and 1–2 plus an isolated node 4 with a self-loop -/
@@ -155,5 +245,7 @@ example : isSymm exB = true ∧ labels (unionSets exB) = [2, 2, 1, 2, 2] ∧ siz
 example : isSymm exAsym = false := by decide
 example : (List.finRange 5).map (labelFn exA) = [2, 1, 1, 2, 3] := by decide
 example : ∀ w : Fin 5, w ≠ 4 → exA.get 4 w = 0 := by decide
+/-- the hypotheses of the three distance corollaries are satisfiable (symmetric, empty diagonal) -/
+example : isSymm exB = true ∧ ∀ i, exB.get i i = 0 := by decide
 
 end Bct.C16
